@@ -168,7 +168,7 @@ void buildGraph(const GSpec &s, const std::string &wmode, G &g, Model &m) {
 
 // full observer comparison of a built graph with its model
 template <class G>
-std::string verifyBuilt(const G &g, const Model &m, std::string &observer, std::string *exactOut = nullptr) {
+std::string verifyBuilt(const G &g, const Model &m, std::string &observer, std::string *exactOut = nullptr, bool exactWeights = true) {
     Obs got, exp;
     try {
         observe(g, got);
@@ -180,7 +180,13 @@ std::string verifyBuilt(const G &g, const Model &m, std::string &observer, std::
     CmpOptions c;
     c.directed = m.directed;
     c.fam = m.fam;
-    c.exactWeights = true;
+    c.exactWeights = exactWeights;
+    if (!exactWeights) {
+        long double sum = 0;
+        for (auto &p : m.e)
+            sum += std::fabs((long double)p.second.w);
+        c.weightTol = (long double)(m.e.size() + 1) * std::ldexp(1.0L, -50) * (1.0L + sum);
+    }
     if (exactOut)
         *exactOut = obsText(got, true, m.directed);
     return compareObs(got, exp, c, observer);
